@@ -108,7 +108,13 @@ func (server *SugarDB) getHandlerFuncParams(ctx context.Context, cmd []string, c
 func (server *SugarDB) handleCommand(ctx context.Context, message []byte, conn *net.Conn, replay bool, embedded bool) ([]byte, error) {
 	// Prepare context before processing the command.
 	server.connInfo.mut.RLock()
-	if embedded && !replay {
+	if replay {
+		// The call replays a logged command: the restore process has already put the
+		// database and protocol of the logged command in the context, keep them.
+		if ctx.Value("ConnectionName") == nil {
+			ctx = context.WithValue(ctx, "ConnectionName", "")
+		}
+	} else if embedded {
 		// The call is triggered via the embedded API.
 		// Add embedded connection info to the context of the request.
 		ctx = context.WithValue(ctx, "ConnectionName", server.connInfo.embedded.Name)
